@@ -1,13 +1,13 @@
 # claim(id, technique, level text, trusted base / assumptions, DESIGN section)
-claim('C13', 'path rules on MIR CFGs (edge-cut / must-pass-through): Pending discipline, drain-before-fill, publish-then-notify, status-channel producer',
-      'Decides for every CFG path (hence every interleaving, by the register/re-check + publish/notify argument) that no hand-written future, stream or '
+claim('C13', 'path rules on MIR CFGs (edge-cut / must-pass-through): Pending discipline, drain-before-fill, publish-then-notify, status-channel producer; unconditional waker replacement',
+      'Also decided: set_waker replaces the stored waker on every path. Decides for every CFG path (hence every interleaving, by the register/re-check + publish/notify argument) that no hand-written future, stream or '
       'synchronous read entry point can park while a wake-up is outstanding. All instances are discovered from the type-checked program; the protocol '
       'argument itself (textbook) is assumed, not mechanised.',
       'rustc front end and MIR construction; mirfacts extractor; std Waker / mio channel semantics; one waker slot per entity.',
       'DESIGN.md section 4 C13')
 
-claim('C09', 'loop-progress rule (must-pass-through on every cycle query->query and on every non-empty exit), outer-loop and wrapper rules, content-taint hazard enumeration on the read path (all on MIR)',
-      'Decides that every loop on the read/take call graph that re-issues a receive-cache query advances both read pointers on every path back to the query, '
+claim('C09', 'loop-progress rule (must-pass-through on every cycle query->query and on every non-empty exit), outer-loop and wrapper rules, content-taint hazard enumeration on the read path (all on MIR); consume-implies-deliver path rule',
+      'Also decided: every change pulled from the SimpleDataReader reaches the sample cache before the next pull or a return. Decides that every loop on the read/take call graph that re-issues a receive-cache query advances both read pointers on every path back to the query, '
       'that every non-empty exit advances them too (reported exactly once), and that wrappers and outer loops only continue after a consumed change. '
       'Termination then follows for every cache content because each iteration consumes one change of a finite cache. Also decided: no index/slice/unwrap/panic site on the read path '
       '(about 300 functions) is reached by content of a cached change without a dominating length check or clamp, apart from four reviewed sites (a panic there poisons the cache locks).',
@@ -27,8 +27,8 @@ claim('C12', 'comparison-formula extraction (normalised relation + operand prove
       'the cleanup timer arm always re-arms. Behaviour over real time (cleanup period granularity) is not decided.',
       'rustc front end + MIR; mirfacts; std Instant / mio timer semantics.',
       'DESIGN.md section 4 C12')
-claim('C20', 'role-pair comparison consistency (normalised S?B relations over provenance terms) + must-pass-through path rules on MIR',
-      'Decides the structural necessary conditions: every comparison between the inclusive last-written sequence number and an exclusive acked-before frontier in '
+claim('C20', 'role-pair comparison consistency (normalised S?B relations over provenance terms) + must-pass-through path rules on MIR; state pairing of the async wait future',
+      'Also decided: the async wait never returns Pending with its placeholder state Done left in place. Decides the structural necessary conditions: every comparison between the inclusive last-written sequence number and an exclusive acked-before frontier in '
       'rtps::writer has the same strictness (S < B acked / S >= B pending); the pending set holds reliable proxies only and an empty one completes at once; '
       'reader loss and every ACKNACK reach the waiter; the sync wait registers before sending and reports success only on the completion token; the async '
       'future has no bare Pending. The timeout duration and promptness as durations are not decided.',
@@ -43,23 +43,23 @@ claim('C17', 'gating analysis: dominance / edge-cut rules over the call graph an
       'rustc front end + MIR (security feature set); mirfacts; std Option/Result::map semantics; governance attributes correct (C18); crypto plugin verifies (C16).',
       'DESIGN.md section 4 C17')
 
-claim('C16', 'must-pass-through (edge-cut with infeasible-edge pruning) and result-use rules on the security-feature MIR; provenance of the key-id comparison and of the payload framing',
-      'Also decided: the header key id is compared on the single key material selected for the scope; the payload framing/footer-location facts (F15, known finding: protected payloads of length not divisible by 4 are dropped). Decides that the builtin crypto plugin cannot release data without a successful verification: in the three decode functions every value that can be a success '
+claim('C16', 'must-pass-through (edge-cut with infeasible-edge pruning) and result-use rules on the security-feature MIR; provenance of the key-id comparison and of the payload framing; approved-endpoint list provenance',
+      'Also decided: the endpoint list of a decoded submessage derives from the key-id lookup and the receiver-specific MAC filter. Also decided: the header key id is compared on the single key material selected for the scope; the payload framing/footer-location facts (F15, known finding: protected payloads of length not divisible by 4 are dropped). Decides that the builtin crypto plugin cannot release data without a successful verification: in the three decode functions every value that can be a success '
       'in a GMAC/GCM arm is defined on the Ok continuation of validate_mac/decrypt; no verification result is discarded or defaulted; the receiver-specific MAC '
       'predicate is true only without a receiver-specific key or on a MAC verified under that key, and every caller gates success on it; header kind/key id are '
       'compared with the key material. That altered bytes fail verification is a property of AES-GCM/GMAC (ring) and is assumed.',
       'rustc front end + MIR (security feature set); mirfacts; ring AEAD; std Result::map/and_then/map_or_else semantics.',
       'DESIGN.md section 4 C16')
 
-claim('C18', 'provenance (value-is-verified chase through Result combinators), who-may-read, first-match shape rules; exhaustive abstract interpretation of the interval and entity-kind formulas; type-driven allow-list of instant-preserving timestamp conversions',
-      'Also decided: a zoned validity bound is converted only by instant-preserving operations. Decides: access-control XML is parsed only from the Ok value of SignedDocument::verify_signature (3 sites); the raw content is readable only by the verifier; verify_signature '
+claim('C18', 'provenance (value-is-verified chase through Result combinators), who-may-read, first-match shape rules; exhaustive abstract interpretation of the interval and entity-kind formulas; type-driven allow-list of instant-preserving timestamp conversions; whole-name subject equality',
+      'Also decided: subject names are compared by whole-name equality. Also decided: a zoned validity bound is converted only by instant-preserving operations. Decides: access-control XML is parsed only from the Ok value of SignedDocument::verify_signature (3 sites); the raw content is readable only by the verifier; verify_signature '
       'returns Ok only past the digest equality and the signature verification over that content; the four rule lookups take the first match of a forward iteration with the documented '
       'fallbacks (default_action, missing topic rule => protected); DomainIds::matches and the entity-kind/protection tables are compared exhaustively with their reference formulas; '
       'result = unprotected OR permitted. Glob/subject matching, XML parsing and the signature algorithm are assumed.',
       'rustc front end + MIR (security feature set); mirfacts; rdv.absint; std Iterator::find / Option / Result combinator semantics; ring signature verification.',
       'DESIGN.md section 4 C18')
-claim('C19', 'pairing (swap-out / write-back on every exit) and dominance (verification Ok-edges cut every path to a trusted state) rules on the security-feature MIR; accepting-state sets of the lowered state matches',
-      'Also decided: each handshake entry point can succeed only from the state(s) in which its message is expected. Decides: every transition to CompletedWithFinalMessage* and every shared-secret computation lies behind the Ok continuations of the Identity-CA certificate check, the GUID '
+claim('C19', 'pairing (swap-out / write-back on every exit) and dominance (verification Ok-edges cut every path to a trusted state) rules on the security-feature MIR; accepting-state sets of the lowered state matches; GUID binding input',
+      'Also decided: the GUID binding hashes the subject name of the presented certificate. Also decided: each handshake entry point can succeed only from the state(s) in which its message is expected. Decides: every transition to CompletedWithFinalMessage* and every shared-secret computation lies behind the Ok continuations of the Identity-CA certificate check, the GUID '
       'binding check, the challenge echoes and the signature verification of that step; begin_handshake_reply verifies before accepting; no verification result is discarded; and '
       'whether the state swapped out of the handshake machine is restored on every exit (it is not: known finding F10, demonstrated). X.509, ECDH and signature algorithms are assumed.',
       'rustc front end + MIR (security feature set); mirfacts; ring / x509 verification.',
@@ -73,66 +73,66 @@ claim('C11', 'who-may-write (field / map mutation sites), pairing and guard (edg
       'rustc front end + MIR; mirfacts; BTreeMap semantics.',
       'DESIGN.md section 4 C11')
 
-claim('C01', 'provenance (origin terms with capture / getter resolution) and guard (edge-cut) rules on MIR; store-aware path evaluation with guard entailment for the NumberSet iterator',
-      'Decides named necessary conditions of in-order, exactly-once, hole-free hand-over: the reliable window is exclusive on both ends with lower = read pointer and '
+claim('C01', 'provenance (origin terms with capture / getter resolution) and guard (edge-cut) rules on MIR; store-aware path evaluation with guard entailment for the NumberSet iterator; limit-after-order rule',
+      'Also decided: a bounded read cuts the selection after it was sorted by sequence number. Decides named necessary conditions of in-order, exactly-once, hole-free hand-over: the reliable window is exclusive on both ends with lower = read pointer and '
       'upper = max(reliable marker, lower+1); the read pointer is advanced to exactly the change returned; the reliable marker is always the ack_base of the same writer\'s proxy; '
       'duplicates are dropped before the cache; CacheChange fields come from the delivering submessage; exclusive "..._before" bounds are decremented when used as inclusive range ends; the NumberSet iterator feeding GAP handling never yields a bit index >= num_bits '
       '(store-aware evaluation of every path of next/next_back). '
       'Ordering over arbitrary DATA/GAP/HEARTBEAT histories is NOT decided.',
       'rustc front end + MIR; mirfacts; BTreeMap::range semantics; naming convention *_before = exclusive bound (R01.6).',
       'DESIGN.md section 4 C01')
-claim('C03', 'who-may-write + guard rules on the acknowledgment frontier, provenance rules on ACKNACK / NACKFRAG construction; exclusive-bound discipline of irrelevant ranges (shared with C01/C02)',
-      'Also decided: irrelevant ranges never cover their exclusive end. Decides: ack_base is written only monotonically (constructors, + k in advance_ack_base, guarded jump in irrelevant_changes_range) and advanced exactly when a number equals it; '
+claim('C03', 'who-may-write + guard rules on the acknowledgment frontier, provenance rules on ACKNACK / NACKFRAG construction; exclusive-bound discipline of irrelevant ranges (shared with C01/C02); ACKNACK base provenance incl. constants under a predicate',
+      'Also decided: every ACKNACK base is derived from ack_base or is a constant sent only under a predicate implying ack_base is not above it. Also decided: irrelevant ranges never cover their exclusive end. Decides: ack_base is written only monotonically (constructors, + k in advance_ack_base, guarded jump in irrelevant_changes_range) and advanced exactly when a number equals it; '
       'counts come from a post-incremented counter; the ACKNACK base is first() of the unfiltered missing list (ack_base when nothing is missing) and the list scans '
       '[max(hb.first, ack_base), hb.last] reporting only numbers absent from `changes`; the set is limited to the 256 window; NACKFRAGs name the missing fragments of their sample. '
       'That every listed number is really missing over arbitrary histories is NOT decided.',
       'rustc front end + MIR; mirfacts.',
       'DESIGN.md section 4 C03')
 
-claim('C02', 'handler-completeness, drain-until-empty and timer re-arm pairing rules (edge cuts on MIR); role-pair comparison normalisation shared with C20; exclusive-bound discipline of GAP ranges (shared with C01/C03)',
-      'Also decided: an exclusive gapList.base / HEARTBEAT.first used as the end of an inclusive range is decremented. Convergence over fault schedules is NOT decided. Decided structural necessary conditions: a received ACKNACK always reaches Writer::handle_ack_nack of the writer it names '
+claim('C02', 'handler-completeness, drain-until-empty and timer re-arm pairing rules (edge cuts on MIR); role-pair comparison normalisation shared with C20; exclusive-bound discipline of GAP ranges (shared with C01/C03); who-may-call for the unsent bookkeeping',
+      'Also decided: a pushed sample stays in the unsent set until acknowledged (mark_change_sent only from the repair worker). Also decided: an exclusive gapList.base / HEARTBEAT.first used as the end of an inclusive range is decremented. Convergence over fault schedules is NOT decided. Decided structural necessary conditions: a received ACKNACK always reaches Writer::handle_ack_nack of the writer it names '
       '(channel drained until empty); the Heartbeat and CacheCleaning arms always re-arm, the repair arms re-arm exactly while repair is pending; heartbeats are suppressed and repair '
       'switched off only under last-written < acked-before (for all readers); repair switches on with its timer armed; the reader answers every informative or non-final HEARTBEAT.',
       'rustc front end + MIR; mirfacts; mio timer semantics.',
       'DESIGN.md section 4 C02')
-claim('C04', 'guard dominance (edge cuts), provenance and who-may-prune rules on MIR; sibling consistency of the retention fold',
-      'Decides: a single-reader sample is emitted only under g == target and all other readers get a pending GAP; every HEARTBEAT advertises (history first_seq, last_seq); '
+claim('C04', 'guard dominance (edge cuts), provenance and who-may-prune rules on MIR; sibling consistency of the retention fold; store-aware feasibility for the recorded-GAP rule',
+      'Also decided (independent of how the guard is written): a recorded GAP goes out on every feasible path. Decides: a single-reader sample is emitted only under g == target and all other readers get a pending GAP; every HEARTBEAT advertises (history first_seq, last_seq); '
       'every requested sequence number is answered by the requested DATA or a GAP that is then sent, and marked sent only after its emission; the requested set is pruned only below '
       'the ACKNACK base or the history floor; the retention fold ranges over reliable proxies only and treats "no reliable reader" as everything acknowledged. '
       'Retention counts over arbitrary interleavings are NOT decided.',
       'rustc front end + MIR; mirfacts; BTreeSet semantics (insert => non-empty).',
       'DESIGN.md section 4 C04')
 
-claim('C05', 'guard (edge-cut) and provenance rules on the fragment assembler MIR; polynomial normal forms of sibling formulas (writer split vs reader placement, fragment counts, announced size vs sliceable bytes)',
-      'Also decided (as agreement of sibling formulas on polynomial normal forms, not by computing bytes): the writer cuts fragment n as bytes (n-1)*fs .. min(n*fs, size) with the header fields it announces, the reader places it at the same offset, both sides count ceil(size/fs) fragments, and the announced size is the length of the object the slices are cut from. Byte-exact reassembly for every size / fragment size / order is a value property and is NOT decided. Decided: a sample is released only on is_complete() of the buffer '
+claim('C05', 'guard (edge-cut) and provenance rules on the fragment assembler MIR; polynomial normal forms of sibling formulas (writer split vs reader placement, fragment counts, announced size vs sliceable bytes); every-fragment-recorded path rule',
+      'Also decided: every DATAFRAG handed to the assembler is recorded. Also decided (as agreement of sibling formulas on polynomial normal forms, not by computing bytes): the writer cuts fragment n as bytes (n-1)*fs .. min(n*fs, size) with the header fields it announces, the reader places it at the same offset, both sides count ceil(size/fs) fragments, and the announced size is the length of the object the slices are cut from. Byte-exact reassembly for every size / fragment size / order is a value property and is NOT decided. Decided: a sample is released only on is_complete() of the buffer '
       'selected by the DATAFRAG\'s own sequence number, is_complete() is the all() of the per-fragment bitmap (not an arrival count), the buffer is removed on release and its bytes '
       'are what is released; every carried fragment sets its own bit; assemblers are keyed by the sending writer\'s guid.',
       'rustc front end + MIR; mirfacts; BitVec / BTreeMap semantics.',
       'DESIGN.md section 4 C05')
-claim('C08', 'effect (who-may-remove), must-call and monotone-write rules on the generic MIR of DataSampleCache<D>',
-      'The instance-state machine, generation counters and KeepLast eviction over access histories are NOT decided. Decided: read/select never remove, take returns exactly what it '
+claim('C08', 'effect (who-may-remove), must-call and monotone-write rules on the generic MIR of DataSampleCache<D>; store-aware path evaluation of the instance state machine, eviction and read-condition formula',
+      'Also decided: the instance state machine of add_sample exhaustively over (old, new) state, the KeepLast eviction count / victims / stores, the read-condition formula on every path of sample_selector, and that nothing limits a selection before it is sorted. Sample / view / instance semantics over whole access histories are NOT decided as a behaviour; the per-step mechanisms are. Decided: read/select never remove, take returns exactly what it '
       'removes and removes every selected key, read marks every reported sample, both select functions sort by the stored sequence number, the per-access generation record only '
       'moves forward and is what is written to the instance marker.',
       'rustc front end + MIR (polymorphic bodies); mirfacts.',
       'DESIGN.md section 4 C08')
 
-claim('C14', 'provenance of header lengths, path-enumerated codec sequence agreement, controlling-condition comparison, interval reasoning over window constants, store-aware path evaluation with guard entailment, size polynomials of write_to paths vs len_serialized expressions with modulo-4 reasoning (all on MIR)',
-      'Round-trip equality for all values is NOT decided. Decided: for every type with both, len_serialized() equals the bytes write_to emits for all presence combinations and element counts (raised F14, fixed); every SubmessageHeader.content_length is the length of the very body in the same Submessage or a literal equal to '
+claim('C14', 'provenance of header lengths, path-enumerated codec sequence agreement, controlling-condition comparison, interval reasoning over window constants, store-aware path evaluation with guard entailment, size polynomials of write_to paths vs len_serialized expressions with modulo-4 reasoning (all on MIR); parser-mirrors-writer and zero-length rule',
+      'Also decided: the DATA/DATAFRAG cursor parsers mirror the writers, the octetsToInlineQos literal matches the fields, and the zero-length rule covers exactly PAD and INFO_TS. Round-trip equality for all values is NOT decided. Decided: for every type with both, len_serialized() equals the bytes write_to emits for all presence combinations and element counts (raised F14, fixed); every SubmessageHeader.content_length is the length of the very body in the same Submessage or a literal equal to '
       'the fixed size computed from the ADT table; the hand-written SequenceNumber / NumberSet / SubmessageHeader codecs write and read the same primitive sequence on every path; the '
       'InlineQos flag and inline_qos presence share one controlling condition and the DDSData variant table matches the reader\'s; from_base_and_set can never produce more bits than '
       'read_from accepts (256), and on every path of NumberSetIter::next/next_back to a result the comparisons passed entail index < rev_at_bit <= num_bits (no member outside the window).',
       'rustc front end + MIR; mirfacts; derived speedy codecs agree by construction; Data/DataFrag cursor parsers not covered by the sequence rule.',
       'DESIGN.md section 4 C14')
-claim('C15', 'table extraction from MIR (ParameterId constant, wire type argument, multiplicity from control shape) and table agreement; emission-condition classification; store-aware path evaluation of the pad arguments of hand-aligned value codecs',
-      'Also decided: in the hand-aligned value codecs every pad length is the length of the value just read/written on every path (loops crossed), and no variable-length value lacks a following pad. Byte-level CDR of parameter values is NOT decided. Decided for SPDP participant data, SEDP reader/writer/topic data and QosPolicies in both feature configurations (about 140 '
+claim('C15', 'table extraction from MIR (ParameterId constant, wire type argument, multiplicity from control shape) and table agreement; emission-condition classification; store-aware path evaluation of the pad arguments of hand-aligned value codecs; PID-to-field agreement, crossed-roles lint',
+      'Also decided: each parameter value lands in the field it was written from. Also decided: in the hand-aligned value codecs every pad length is the length of the value just read/written on every path (loops crossed), and no variable-length value lacks a following pad. Byte-level CDR of parameter values is NOT decided. Decided for SPDP participant data, SEDP reader/writer/topic data and QosPolicies in both feature configurations (about 140 '
       'parameters each): every parameter written is read with the same wire type and compatible multiplicity and vice versa; whether a parameter is written depends only on presence / '
       'variant of its field, never on its value; absent optionals decode to the RTPS defaults; the parameter-list reader is id-agnostic up to the sentinel. Six write-only parameters '
       'of fields documented as not implemented are listed as known findings (F13, demonstrated).',
       'rustc front end + MIR (both feature sets); mirfacts; wrapper pairs Locator/repr::Locator, String/StringWithNul.',
       'DESIGN.md section 4 C15')
 
-claim('C06', 'interprocedural wire-taint over the receive call graph; hazard-site enumeration (range loops, allocation sizes, index/slice/cursor ops, unwrap/assert/panic, BTreeMap::range) with discharge by type rules, dominating guards and re-checked named guards; who-may-call rule for blocking primitives and provenance of the notification socket mode',
-      'Decides that every site where a wire-controlled value can reach a loop bound over a sequence-number range, an allocation size, an indexing / slicing / cursor operation, an explicit '
+claim('C06', 'interprocedural wire-taint over the receive call graph; hazard-site enumeration (range loops, allocation sizes, index/slice/cursor ops, unwrap/assert/panic, BTreeMap::range) with discharge by type rules, dominating guards and re-checked named guards; who-may-call rule for blocking primitives and provenance of the notification socket mode; division by wire value as blocking hazard',
+      'Also decided: no division or remainder by a sender-controlled value without a dominating non-zero check. Decides that every site where a wire-controlled value can reach a loop bound over a sequence-number range, an allocation size, an indexing / slicing / cursor operation, an explicit '
       'panic or a BTreeMap::range on the code reachable from the receive entry points (about 580 functions) is discharged by a recognised bound or by a named guard that is re-checked on every '
       'run (parser validity checks, cursor discipline, window limits, fit-to-buffer check); unknown sites and vanished guards are reported. Two open hazards are known findings (F2 GAP range '
       'materialisation, F3 allocation sized by data_size), two were repaired (F1, F4); all four were demonstrated. Also decided: no blocking channel/thread primitive is reachable from the receive entry points and the one socket the receive thread writes to whose peer the application drains is set non-blocking '
